@@ -17,6 +17,9 @@ sys.path.insert(0, ROOT)
 from propcfg import PROPS, COMPONENTS  # noqa: E402
 
 BUILD = os.path.join(ROOT, 'build')
+# evidence/ and replays/ normally live in /verif; runs against a deliberately broken tree (seeded changes)
+# set VERIF_OUT_DIR so that they do not overwrite the committed files.
+OUT = os.environ.get('VERIF_OUT_DIR') or ROOT
 HANG_S = float(os.environ.get('VERIF_HANG_S', '60'))
 
 
@@ -485,7 +488,7 @@ def check(prop, tier, seed, budget_override, workers):
     by_sig = collections.OrderedDict()
     for v in sorted(res['viol'], key=lambda v: v['index']):
         by_sig.setdefault(v['result']['sig'], []).append(v)
-    os.makedirs(os.path.join(ROOT, 'replays'), exist_ok=True)
+    os.makedirs(os.path.join(OUT, 'replays'), exist_ok=True)
     def occ(sig, vs):
         return max(len(vs), res['sig_counts'].get(sig, 0))
     for sig, vs in list(by_sig.items())[:40]:
@@ -516,7 +519,7 @@ def check(prop, tier, seed, budget_override, workers):
         if rs['verdict'] != verdict:
             small, rs = sc, r1
         name = re.sub(r'[^A-Za-z0-9_.-]+', '_', rs['sig'] or sig)[:120]
-        path = os.path.join(ROOT, 'replays', '%s.json' % name)
+        path = os.path.join(OUT, 'replays', '%s.json' % name)
         rep = dict(property=prop, violation=verdict, sig=rs['sig'], detail=rs['detail'], seed=seed, tier=tier, index=v['index'],
                    expect_fp=rs.get('fp', ''), minimise_reruns=reruns, occurrences=occ(sig, vs), scenario=small)
         with open(path, 'w') as f:
@@ -601,8 +604,8 @@ def check(prop, tier, seed, budget_override, workers):
         wall_s=round(wall, 2),
         violations=sum(1 for r in reported if not r['known']),
     )
-    os.makedirs(os.path.join(ROOT, 'evidence'), exist_ok=True)
-    with open(os.path.join(ROOT, 'evidence', '%s.json' % prop), 'w') as f:
+    os.makedirs(os.path.join(OUT, 'evidence'), exist_ok=True)
+    with open(os.path.join(OUT, 'evidence', '%s.json' % prop), 'w') as f:
         json.dump(ev, f, indent=1)
     log('[%s] exit=%d wall=%.1fs evidence=evidence/%s.json' % (prop, exit_code, wall, prop))
     return exit_code
